@@ -394,7 +394,10 @@ def merge_and_report(prop: Prop, tier, seed, parts, wall, replay_mode=False):
                 notes.append(n)
         for k, v in p.get('extra_cov', {}).items():
             if isinstance(v, (int, float)) and not isinstance(v, bool):
-                extra_cov[k] = extra_cov.get(k, 0) + v
+                if k.endswith('_max') or k == 'states':     # per-shard maxima / distinct counts: lower bound
+                    extra_cov[k] = max(extra_cov.get(k, 0), v)
+                else:
+                    extra_cov[k] = extra_cov.get(k, 0) + v
             elif isinstance(v, list):
                 extra_cov.setdefault(k, [])
                 extra_cov[k] = (extra_cov[k] + v)[:8]
